@@ -19,8 +19,8 @@ func init() {
 			"R2 the test that opens a new bucket (bucket > now − wait) and the test that keeps a bucket from being flushed (bucket > cutoff, with cutoff = tick − wait) are the same strict relation, so no bucket is both still accepting and already flushed, or closed but never flushed; " +
 			"R3 in Flush every emission for a bucket precedes the deletion of that bucket within the same iteration, and each processor result produces exactly one send and one flushed-count; " +
 			"R4 the bucket key is ts − ts % Interval of the point's timestamp and the emitted timestamp is the bucket key; " +
-			"R5 every Processor implementation is returned by exactly one case of the function registry, the case names equal the function table of docs/aggregation.md, and the output lines have the formats `%s %f %d` / `%s.%s %f %d`.",
-		NotDecided: "the arithmetic of the ten functions (e.g. percentile interpolation); that a library sort sorts; clock behaviour.",
+			"R5 every Processor implementation is returned by exactly one case of the function registry, the case names equal the function table of docs/aggregation.md, and the output lines have the formats `%s %f %d` / `%s.%s %f %d`; R8 the percentile processor interpolates between two neighbouring samples of the sorted list with a weight that is provably in [0, 1) (so a percentile never lies outside the contributed values).",
+		NotDecided: "the arithmetic of the ten functions (e.g. the rank formula of the percentiles, the sums and squares of stdev); that a library sort sorts; clock behaviour.",
 		Rules: []RuleDef{
 			{ID: "C10.R1", Min: 1, Doc: "one contribution per point: path enumeration of AddOrCreate with events proc.Add / constructor+store / numTooOld.Inc and the branch decisions of the two map lookups and the age test", Run: c10r1},
 			{ID: "C10.R2", Min: 3, Doc: "one definition of open: normalised comparison operators of the age test in AddOrCreate and the loop-exit test in Flush; the cutoff passed by run is tick − Wait seconds", Run: c10r2},
@@ -28,6 +28,7 @@ func init() {
 			{ID: "C10.R4", Min: 2, Doc: "bucket start: value flow of AddOrCreate's `quantized` argument; operands of the two Sprintf calls in Flush", Run: c10r4},
 			{ID: "C10.R6", Min: 2, Doc: "bucket list stays sorted: on every path after tsList = append(tsList, q) the function either passes the in-order edge of a comparison of the previous last element with q (or finds the list shorter than two), or calls a library sort on tsList; the only other stores into tsList re-slice it (Flush) — a hand-written insertion is reported, because its correctness is a claim about values this analysis cannot decide", Run: c10r6},
 			{ID: "C10.R7", Min: 1, Doc: "ticks carry the current time: the value clock.AlignedTick sends on its channel is time.Now() read after the sleep — run derives the flush cutoff (tick − wait) from it, so a tick that lies in the future flushes buckets that are still open (and lets them be re-created and emitted again)", Run: c10r7},
+			{ID: "C10.R8", Min: 1, Doc: "percentile interpolation stays between two neighbouring samples: the result is s[i] + w·(s[i+1] − s[i]) on one sorted list, w = rank − float(int part of the same rank), the lower index derives from that int part, and either the int part is math.Floor or a dominating edge establishes rank ≥ 0 (int() truncates toward zero; `int part ≥ 0` only gives rank > −1) — a sign/interval argument over the expression's shape, no evaluation", Run: c10r8},
 			{ID: "C10.R5", Min: 12, Doc: "registry: string cases of GetProcessorConstructor ↔ constructors ↔ Processor implementations ↔ docs/aggregation.md", Run: c10r5},
 		},
 	})
